@@ -415,10 +415,13 @@ class FakeRe:
     fullmatch = match
 
 
-def _text(ctx, name, sample, minlen=1):
-    """opaque text (symbolic) / a concrete sample (replay)"""
+def _text(ctx, name, sample, minlen=1, num=None):
+    """opaque text (symbolic) / a concrete sample (replay); num=(lo, hi): the text is a decimal numeral in that range (what the printer's
+    %d / %u conversions emit) whose value is a symbolic integer as soon as the code compares it"""
     if ctx.symbolic:
-        return symx.SStr(name, nonempty=True if minlen >= 1 else None)
+        return symx.SStr(name, nonempty=True if minlen >= 1 else None, num=num)
+    if num is not None and ctx.a['vars'].get(name + '#int') is not None:
+        return str(ctx.a['vars'][name + '#int'])
     ne = True if minlen >= 1 else ctx.fresh_bool(name + '_nonempty')
     return sample if ne else ''
 
@@ -439,7 +442,7 @@ def arg_dispatch(ctx, case):
         groups = {g: None for g in ARG_GROUPS}
         samples = {'int': '-12', 'fixed': '1,50000000', 'str': 'a, b', 'nil': 'nil', 'obj': 'wl_surface@3', 'new': 'new id wl_callback@5',
                    'newu': 'new id [unknown]@6', 'array': 'array', 'fd': 'fd 7'}
-        tok = _text(ctx, 'token', samples[kind])
+        tok = _text(ctx, 'token', samples[kind], num=(-2 ** 31, 2 ** 32) if kind == 'int' else None)
         if kind == 'int':
             groups['int'] = tok
         elif kind == 'fixed':
@@ -454,13 +457,13 @@ def arg_dispatch(ctx, case):
         elif kind == 'array':
             groups['array'] = _text(ctx, 'arr', 'array')
         elif kind == 'obj':
-            groups['obj_type'], groups['obj_id'] = _text(ctx, 'otype', 'wl_surface'), _text(ctx, 'oid', '3')
+            groups['obj_type'], groups['obj_id'] = _text(ctx, 'otype', 'wl_surface'), _text(ctx, 'oid', '3', num=(1, 2 ** 32))
         elif kind == 'new':
-            groups['new_type'], groups['new_id'] = _text(ctx, 'ntype', 'wl_callback'), _text(ctx, 'nid', '5')
+            groups['new_type'], groups['new_id'] = _text(ctx, 'ntype', 'wl_callback'), _text(ctx, 'nid', '5', num=(1, 2 ** 32))
         elif kind == 'newu':
-            groups['new_id'] = _text(ctx, 'nid', '6')
+            groups['new_id'] = _text(ctx, 'nid', '6', num=(1, 2 ** 32))
         elif kind == 'fd':
-            groups['fd'] = _text(ctx, 'fdv', '7')
+            groups['fd'] = _text(ctx, 'fdv', '7', num=(-2 ** 31, 2 ** 31))
         present = ctx.choose([True, False], 'attr_present')
         class FakeP:
             pass
